@@ -118,6 +118,7 @@ func genericFindings(u *Unit) []genFinding {
 	out = append(out, findHeaderAfterStatus(u)...)
 	out = append(out, findShadowedObserved(u)...)
 	out = append(out, findIncompleteMemo(u)...)
+	out = append(out, findStalePooled(u)...)
 	out = append(out, findKindSwitchGaps(u)...)
 	out = append(out, findUncheckedCacheGet(u)...)
 	sort.Slice(out, func(i, j int) bool { return out[i].pos+out[i].rule < out[j].pos+out[j].rule })
